@@ -277,14 +277,19 @@ def run(ctx):
     pm_ = a.parents(f.mod)
     for o in opens:
         managed = pm_.get(id(o))
-        if isinstance(managed, ast.withitem) and managed.context_expr is o:
+        o_expr = o
+        # contextlib.closing(open(..)) is the file as a context manager that closes it
+        if isinstance(managed, ast.Call) and ast.unparse(managed.func) in ("closing", "contextlib.closing") and len(managed.args) == 1 and managed.args[0] is o:
+            o_expr = managed
+            managed = pm_.get(id(managed))
+        if isinstance(managed, ast.withitem) and managed.context_expr is o_expr:
             ctx.holds("C05.R4", "is_avro: file opened here is closed on every exit (normal and exceptional)", f.where(o), "context manager")
             continue
         onode = cfg.node_of(o)
         after = [m for (m, lab) in onode.succ if lab != "exc"]
         # `v = open(..)` .. `with v [as fp]:` hands the file to a context manager later on: entering the with statement is
         # as good as the close (the file object closes itself when the block is left, normally or not)
-        held = managed.targets[0].id if isinstance(managed, ast.Assign) and len(managed.targets) == 1 and isinstance(managed.targets[0], ast.Name) and managed.value is o else None
+        held = managed.targets[0].id if isinstance(managed, ast.Assign) and len(managed.targets) == 1 and isinstance(managed.targets[0], ast.Name) and managed.value is o_expr else None
         if held is not None:
             entered = [n for n in cfg.nodes if n.kind == "with" and isinstance(n.ast, ast.Tuple) and any(isinstance(x, ast.Name) and x.id == held for x in n.ast.elts)]
             restored = any(isinstance(x.ast, ast.Assign) and x is not onode and any(isinstance(t, ast.Name) and t.id == held for t in x.ast.targets) for x in cfg.reachable_from(onode))
